@@ -315,6 +315,10 @@ class Interp(object):
     def _native(self, f, args, kwargs):
         """Call a builtin / standard-library / sym-class callable natively."""
         owner = getattr(f, '__self__', None)
+        if isinstance(owner, dict) and args and getattr(f, '__name__', '') in ('get', 'pop', 'setdefault', '__contains__', '__getitem__', '__delitem__'):
+            # dictionary methods with a symbolic key (or symbolic keys in the dictionary): by value
+            from . import summaries
+            args = [summaries._canon_key(self, owner, args[0])] + list(args[1:])
         trusted = (isinstance(owner, (SInt, SBool, SBuf)) or isinstance(f, type) and issubclass(f, BaseException)
                    or getattr(type(owner), '_pyvc_trusted', False) or getattr(f, '_pyvc_trusted', False))
         try:
@@ -731,9 +735,10 @@ class Interp(object):
         return True
 
     def x_While(self, s, frame):
-        h = self.loop_hook(s, frame)
-        if h is not None:
-            return h
+        if frame.fname in self.loop_contracts and engine().mode == 'symbolic':
+            for _ in self._gwhile_contract(s, frame, self.loop_contracts[frame.fname]):
+                raise Unsupported('yield inside a loop under contract in a plain function')
+            return
         n = 0
         while self.truth(self.eval(s.test, frame)):
             n += 1
